@@ -531,23 +531,20 @@ def build_ops(ck, fresh_ser, fresh_enc):
     return ops
 
 
-REDUCED = ["ser:PA", "ser:PB", "parse:PB", "jser:Leaf", "dec-auto:x", "parse-auto:Late", "parse:Holder",
-           "find_type:Leaf", "find_type:{urn:k}Broken", "build_recursive:Dep", "parse:PA-cut5", "ser:Broken",
-           "ser:Own"]
-MEDIUM = REDUCED + ["parse:PA-as-PB", "reset", "parse:WildO-other", "parse:WildO-same", "parse:WildO-local", "parse:WildT-a",
-                    "parse:WildT-z", "parse:Holder-xsi-LateDer", "find_subclass:Der,LateDer", "dec:Holder-der", "jparse:PA",
-                    "ser:PC", "parse:PC", "ser:Wild", "parse:Wild", "ser:Holder", "find_types:Leaf", "names_match:Broken",
-                    "build_xsi_cache", "by_fields:x", "fetch:Base,xsi=Der2", "build:Leaf,urn:q", "ser:Leaf", "parse:Leaf",
-                    "parse-auto:Leaf", "ser:WildO", "ser:WildT", "parse:WildT", "ser:Mid", "jser:PA", "jparse-auto:PA",
-                    "parse:Holder-xsi-Ext", "find_type:{urn:h}Ext", "find_subclass:Base,Ext", "parse-auto:Ext",
+REDUCED = ["ser:PA", "ser:PB", "parse:PB", "jser:Leaf", "dec-auto:x", "parse-auto:Late", "parse:Holder-xsi-Ext",
+           "find_type:Leaf", "find_type:{urn:k}Broken", "build_recursive:Dep", "parse:PA-cut5", "ser:Broken"]
+MEDIUM = REDUCED + ["parse:PA-as-PB", "reset", "parse:WildO-other", "parse:WildO-same", "parse:WildT-a",
+                    "parse:Holder-xsi-LateDer", "find_subclass:Der,LateDer", "dec:Holder-der", "jparse:PA",
+                    "ser:PC", "parse:PC", "ser:Wild", "parse:Wild", "parse:Holder", "names_match:Broken",
+                    "build_xsi_cache", "by_fields:x", "ser:Leaf", "parse:Leaf", "ser:Own", "parse-auto:Own",
+                    "find_type:{urn:h}Ext", "find_subclass:Base,Ext", "parse-auto:Ext",
                     "oparse:UHolder-alpha", "oparse:UHolder-fail", "oround:UHolder-alpha", "oparse:Num-abc", "oparse:Num-7",
-                    "ojparse:Num-abc", "oparse:Tok", "oparse:Tok-bad", "oround:Cmp", "oparse:Nil", "oround:Nil",
-                    "oparse:Leaf-in-u"]
-OPAQUE = ("oparse", "oround", "ojparse", "ojround")
+                    "oround:Cmp", "oparse:Nil"]
 ENVS = [{"env": "define", "cid": 20, "bump": False}, {"env": "define", "cid": 22, "bump": False},
         {"env": "define", "cid": 21, "bump": True}]
 CLOSED = ["ser:Own", "parse:Own", "parse-auto:Own", "jser:Own", "dec:Own", "ser:Broken", "build:Broken",
           "parse:nobody", "find_type:{urn:o}Own", "find_type:{urn:none}Nobody", "ser:Own2", "parse:Own2"]
+OPAQUE = ("oparse", "oround", "ojparse", "ojround")
 
 
 def valid(seq, ops):
@@ -591,7 +588,11 @@ def gen_sequences(ck, ops):
          ["find_type:{urn:late}Late", ENVS[0], "find_type:{urn:late}Late", "parse-auto:Late"],
          ["find_type:{urn:k}Broken", "dec-auto:x", "find_type:{urn:k}Broken", "parse:broken-auto"],
          ["ser:Dep", "build_recursive:Dep"],
-         ["build_xsi_cache", "names_match:Broken", "names_match:Broken"]]
+         ["build_xsi_cache", "names_match:Broken", "names_match:Broken"],
+         # regressions of the harness itself: an opaque operation that diverges on the shared instance
+         ["build:30,None", "oparse:UHolder-alpha", "parse:Mid"],
+         ["oparse:UHolder-fail", "oparse:Num-abc", "oparse:UHolder-alpha"],
+         ["parse:Holder-xsi-Ext", "find_type:{urn:h}Ext", "parse-auto:Ext"]]
     for wseq in W:
         seqs.append([x if isinstance(x, dict) else {"op": by_tag[x]} for x in wseq])
         kinds["witness"] += 1
@@ -757,6 +758,13 @@ def run(ck: Check):
     t_p1 = time.time()
     ops = build_ops(ck, fresh_ser, fresh_enc)
     seqs, kinds = gen_sequences(ck, ops)
+    if getattr(ck, "replay_file", None):
+        # ./check C14 --replay <file>: only the sequence of that replay (operations by tag)
+        import json
+        by_tag = {o["tag"]: i for i, o in enumerate(ops)}
+        rp = json.load(open(ck.replay_file))["replay"]["sequence"]
+        seqs = [[st if "env" in st else {"op": by_tag[st["op"]]} for st in rp]]
+        kinds = {"replay": 1}
 
     # ---- pass 2: the sequences on the real instances
     res = run_impl_parallel(ops, seqs)
@@ -918,7 +926,7 @@ def run(ck: Check):
                     ck.failure(cls, f"shared instances answer differently from fresh ones after: {tags}", replay(i))
     if unexpected_mod:
         ck.notes.append(f"{unexpected_mod} calls changed len(sys.modules) themselves (reported to the model as EImport)")
-    if stats["guarded_sequences"] == 0:
+    if stats["guarded_sequences"] == 0 and not getattr(ck, "replay_file", None):
         ck.failure("harness-guard-vacuous", "no generated history satisfies the guard of the theorem", {"kinds": kinds})
     ck.cov["distinct_nontrivial"] = len(distinct)
     ck.cov["rule"] = ("operation sequences on shared XmlContext/XmlParser/XmlSerializer/JsonParser/JsonSerializer/"
